@@ -240,6 +240,9 @@ type Cfg struct {
 	// Windowed: the inputs are consecutive windows of one backing buffer
 	// (cap > len), as a caller slicing one long stream would pass them
 	Windowed bool `json:"windowed,omitempty"`
+	// NumCPU is what runtime.NumCPU() / GOMAXPROCS(0) report to the library
+	// (0: 4): a pure test may not depend on it
+	NumCPU int `json:"num_cpu,omitempty"`
 }
 
 // InputSpec describes an input.
@@ -411,7 +414,11 @@ func Execute(t *testing.T, c *Cfg, sim bool) *Outcome {
 			}
 			wg.Wait()
 		}
-		opt := simctl.Options{NumCPU: 4, Policy: c.Policy, Picks: c.Picks, Quantum: c.Quantum, QRand: simctl.NewRand(c.QSeed), QGrow: 1500, MaxSteps: 3000000, KeepTrace: 200, WallLimit: 20 * time.Minute}
+		ncpu := c.NumCPU
+		if ncpu <= 0 {
+			ncpu = 4
+		}
+		opt := simctl.Options{NumCPU: ncpu, Policy: c.Policy, Picks: c.Picks, Quantum: c.Quantum, QRand: simctl.NewRand(c.QSeed), QGrow: 1500, MaxSteps: 3000000, KeepTrace: 200, WallLimit: 20 * time.Minute}
 		out.Sim = simctl.Run(t, opt, body)
 		for _, p := range out.Sim.Panics {
 			out.Mismatches = append(out.Mismatches, Mismatch{"panic", fmt.Sprintf("task %s panicked: %s", p.ID, p.Panic)})
